@@ -1330,12 +1330,8 @@ def fam_dbg(tier, seed):
 RND_RAW_NAMES = ["r#type", "r#loop", "r#mod", "r#fn", "r#match", "r#ref", "r#move", "r#in"]
 
 
-def fam_rnd(tier, seed):
-    """random rule-valid declarations drawn from the whole feature grammar (base class x type kind x range form
-    x array form x position x access x default/debug x name style). The hand-written families fix the shapes
-    someone thought of; this one samples combinations nobody listed, differently for every VERIF_SEED."""
-    out = []
-    mod = "rnd"
+def rnd_tools(rnd, mod="rnd", simple=False):
+    """generator functions for random rule-valid fields / structs; simple=True restricts types to bool/uN/iN"""
     helpers = []
     ex = {}
     for w in (1, 2, 3, 8):
@@ -1353,13 +1349,12 @@ def fam_rnd(tier, seed):
         n_ = struct(mod, "RN%d" % w, w, [field("a", [(0, 0)], T_bool()), field("b", [(1, w - 1)], T_uint(w - 1))], debug=True, family="RND")
         ne[w] = n_
         helpers.append(n_)
-    rnd = random.Random(h("rnd", seed, tier))
     WIDTHS = [1, 1, 2, 2, 3, 4, 5, 7, 8, 8, 9, 12, 15, 16, 16, 17, 24, 31, 32, 33, 48, 63, 64, 65, 100, 127, 128]
 
     def pick_type(w_max, want=None):
         """(type, width) with width <= w_max (and == want when given)"""
         for _ in range(40):
-            kind = rnd.choice(["bool", "uint", "uint", "uint", "int", "enum", "optenum", "nested"])
+            kind = rnd.choice(["bool", "uint", "uint", "uint", "int"] + ([] if simple else ["enum", "optenum", "nested"]))
             if kind == "bool":
                 w = 1
             elif kind == "uint":
@@ -1543,6 +1538,18 @@ def fam_rnd(tier, seed):
             dflt = None  # incomplete cover without default: no builder expected
         return struct(mod, name, N, fs, default=dflt, family="RND")
 
+    return {"helpers": helpers, "free_field": free_field, "tile_struct": tile_struct, "names": names}
+
+
+def fam_rnd(tier, seed):
+    """random rule-valid declarations drawn from the whole feature grammar (base class x type kind x range form
+    x array form x position x access x default/debug x name style). The hand-written families fix the shapes
+    someone thought of; this one samples combinations nobody listed, differently for every VERIF_SEED."""
+    out = []
+    mod = "rnd"
+    rnd = random.Random(h("rnd", seed, tier))
+    tools = rnd_tools(rnd, mod)
+    helpers, free_field, tile_struct, names = tools["helpers"], tools["free_field"], tools["tile_struct"], tools["names"]
     count = 70 if tier == "quick" else 700
     for i in range(count):
         r = rnd.random()
@@ -1725,7 +1732,7 @@ def build_positive(tier, seed, harvested):
         for d in part:
             c.add(d)
         crates.append(c)
-    rh, rest = fam_rnd(tier, seed) if os.environ.get("VERIF_RND") else ([], [])
+    rh, rest = fam_rnd(tier, seed)
     for i, part in enumerate(chunk(rest, 70 if tier == "quick" else 90)):
         c = Crate("pos_rnd_%d" % i)
         for d in rh:
